@@ -101,14 +101,12 @@ Fixpoint prepare_loop (text : list str) (sep : separator) (u : unit_level)
 Definition prepare (text : list str) (sep : separator) (u : unit_level) (check_punct tolerant : bool)
   : list str * pend := prepare_loop text sep u check_punct tolerant 0.
 
+(* ' '.join(word.replace(' ', '') for word in line.split(separator.word)); split(None) splits on whitespace *)
 Definition gold_line (sep : separator) (line : str) : result str :=
-  match s_word sep with
-  | None => Raise TypeError
-  | Some w =>
-    let l1 := replace_all (osep (s_syll sep)) [] line in
-    let l2 := replace_all (osep (s_phone sep)) [] l1 in
-    Ok (norm_ws (replace_all w [sp] l2))
-  end.
+  let l1 := replace_all (osep (s_syll sep)) [] line in
+  let l2 := replace_all (osep (s_phone sep)) [] l1 in
+  let words := match s_word sep with Some w => split_on w l2 | None => split_ws l2 end in
+  Ok (norm_ws (join [sp] (map (replace_all [sp] []) words))).
 
 Definition gold (text : list str) (sep : separator) : result (list str) :=
   do ls <- mapM (gold_line sep) text;
